@@ -35,7 +35,7 @@ class C10(Check):
             "definition-count bucket, directories, op kinds, spelling styles used, fault kind); non-trivial = at least two "
             "executions of one logical read differed in key/spelling/hash seed and the workspace has >= 3 definitions in "
             ">= 2 directories")
-    TIERS = {"quick": {"runs": 480, "budget_s": 50}, "thorough": {"runs": 40000, "budget_s": 1200}}
+    TIERS = {"quick": {"runs": 400, "budget_s": 50}, "thorough": {"runs": 40000, "budget_s": 1200}}
     ASSUMPTIONS = ["reference model of namespaces (dsim/model/namespace.py, types.py) encodes the text of C10/C02 only",
                    "cross-hash-seed comparison is done on canonical observation digests by the parent"]
 
@@ -54,6 +54,17 @@ class C10(Check):
             scn["extra_files"].append([rng.choice(dirs) + "/" + rng.choice(STRAYS), "garbage \x01 @@@\n"])
         mode = rng.random()
         groups = scn["groups"]
+        if rng.random() < 0.08:
+            # twin sub-mode: a second file that encodes the name and version of an existing definition of a root
+            k = rng.choice(list(uni.defs))
+            d = uni.defs[k]
+            short = d["name"].split(".")[-1]
+            other_ext = "uavcan" if d.get("ext", "dsdl") == "dsdl" else "dsdl"
+            fn = ("%s.%d.%d.%s" % (short, d["ver"][0], d["ver"][1], other_ext)) if (rng.random() < 0.5 or d.get("port") is not None) else ("6200.%s.%d.%d.%s" % (short, d["ver"][0], d["ver"][1], d.get("ext", "dsdl")))
+            scn["twin"] = {"def": k, "path": uni.file_of(k).rsplit("/", 1)[0] + "/" + fn, "equal": rng.random() < 0.5}
+            for ri in range(nroots):
+                groups.append(self._rn_group(rng, uni, ri, fault=None))
+            return scn
         # a read_namespace group per root (also the reference for read_files equality)
         for ri in range(nroots):
             groups.append(self._rn_group(rng, uni, ri, fault=None))
@@ -206,6 +217,12 @@ class C10(Check):
             xobs = []
             styles = set()
             faults = set()
+            tw = scn.get("twin")
+            if tw:
+                if tw["def"] not in uni.defs or tw["path"] == uni.file_of(tw["def"]) or tw["path"].rsplit("/", 1)[0] != uni.file_of(tw["def"]).rsplit("/", 1)[0]:
+                    raise InvalidScenario("bad twin")
+                w.write(tw["path"], w.texts[tw["def"]] if tw["equal"] else "uint64 twin_other_body\n@sealed\n")
+                faults.add("twin")
             multi_variant = False
             for gi, g in enumerate(scn["groups"]):
                 for p in g.get("mkdirs", []):
@@ -227,11 +244,14 @@ class C10(Check):
                         self._check_rn(out, w, uni, op, res, dir_to_root, rn_canon, where, faults)
                     else:
                         self._check_rf(out, w, uni, op, res, dir_to_root, file_to_key, rn_canon, where)
-                if len(set(canons)) > 1:
+                if len(set(canons)) > 1 and not (bool(tw) and g["kind"] == "rn" and any(dir_to_root.get(o["root"]["p"]) == uni.root_of[tw["def"]] for o in g["ops"])):
                     out.fail("C10.invariance", "group %d: %d distinct canonical observations among %d equivalent executions: %s" % (gi, len(set(canons)), len(canons), canons))
                 if len(variants) > 1:
                     multi_variant = True
-                xobs.append(canons)
+                twin_hit = bool(tw) and g["kind"] == "rn" and any(dir_to_root.get(o["root"]["p"]) == uni.root_of[tw["def"]] for o in g["ops"])
+                # which of two equal twins survives depends on set order (known finding F7b): reported by C10.complete with
+                # its own signature, not through the cross-hash-seed digest
+                xobs.append(["twin"] if twin_hit else canons)
             out.xobs = xobs
             ndirs = len({uni.file_of(k).rsplit("/", 1)[0] for k in uni.defs})
             out.nontrivial = multi_variant and len(uni.defs) >= 3 and ndirs >= 2
@@ -281,6 +301,24 @@ class C10(Check):
         ri = dir_to_root[op["root"]["p"]]
         visible = {ri} | {dir_to_root[d] for d in dirs[1:] if d in dir_to_root}
         keys = uni.keys_of_root(ri)
+        tw = w.scn.get("twin")
+        if tw and uni.root_of[tw["def"]] in visible:
+            # two files encode one name and version. Read as targets: either both files are reported (impossible: one
+            # identity) or the set is rejected; never a silent choice of one of them. Seen through a lookup: only a
+            # reference to that identity is a conflict (C09); otherwise nothing may change.
+            if uni.root_of[tw["def"]] == ri:
+                if res["ok"]:
+                    srcs = sorted(w.rel(t.source_file_path) for t in res["direct"] if str(t) == tw["def"])
+                    out.fail("C10.complete", "%s: files %s and %s encode the same name and version; the call returned %d composite(s) for them (%s)" % (
+                        where, uni.file_of(tw["def"]), tw["path"], len(srcs), srcs), "twin-silently-deduplicated" if tw["equal"] else "twin-different-bodies-accepted")
+                elif classify_exc(res["exc"]) != "IDE":
+                    out.fail("C10.complete", "%s: twin files: raised %s" % (where, type(res["exc"]).__name__), "twin-crash:" + type(res["exc"]).__name__)
+                return
+            referenced = {r0 for k0 in uni.closure(keys) for r0 in T.def_refs(uni.defs[k0])}
+            if tw["def"] in referenced:
+                if res["ok"] or classify_exc(res["exc"]) != "IDE":
+                    out.fail("C10.complete", "%s: a reference to %s is ambiguous (twin files) but the call %s" % (where, tw["def"], "returned" if res["ok"] else "raised " + type(res["exc"]).__name__), "twin-ambiguous-reference")
+                return
         missing = uni.missing_refs(keys, visible)
         if missing:
             faults.add("missing_lookup")
